@@ -162,7 +162,8 @@ def run(ctx):
                 conds = [(canon(c), arms) for (sw, c, arms, tg) in pcs]
                 seed_some = any(c == 'discr(each(p2).seed_nonce)' and arms == ('1',) for c, arms in conds)
                 act_dep = [(c, arms) for c, arms in conds if 'p%d' % act in c]
-                not_verify_only = any(c == 'discr(p%d)' % act and '0' not in arms for c, arms in act_dep)
+                not_verify_only = any(c == 'discr(p%d)' % act and '0' not in arms for c, arms in act_dep) or \
+                    any('VerifyOnly' in c and ((' Ne ' in c and arms == ('otherwise',)) or (' Eq ' in c and arms == ('0',))) for c, arms in act_dep)
                 key = 'R-C09-3/push@%s' % ('some' if is_some else 'none-%d' % dbb)
                 if is_some:
                     rep.check(seed_some and not_verify_only, 'R-C09-3', key, 'Some(mask) is pushed only when the statement has a seed and the action is not VerifyOnly',
